@@ -163,6 +163,15 @@ func c13enum(c *Ctx) {
 		treat[k] = v
 	}
 	c.Each(func(idx int, r *gen.R) {
+		// failures leave no sticky state behind - in the logger, and in the PROCESS: the global flags after the case are the
+		// flags before it (the caller flag is off here, as in an application that builds its handlers with NoSource)
+		flagsBefore := slog.GetFlags()
+		defer func() {
+			if fl := slog.GetFlags(); fl != flagsBefore {
+				c.R.Violation(idx, "recovery", "C13/recovery/process-wide-flags", fmt.Sprintf("the process-wide flags were %s before the faulted calls of this case and are %s after them (no call of the application changed them)", flagNames(flagsBefore), flagNames(fl)), nil)
+				slog.SetFlags(flagsBefore)
+			}
+		}()
 		if idx >= total {
 			return
 		}
